@@ -146,7 +146,8 @@ class C15(Prop):
         from rtverif.props.c08 import PERIODS, U
         period = PERIODS[(vseed >> 3) % len(PERIODS)]
         unit = ('s', 'ms', 'us')[(vseed >> 7) % 3]
-        P = period[0] * U[period[1]]
+        from rtverif.props.c08 import period_ns
+        P = period_ns(period)
         mode = ('default', 'both', 'same-suffix', 'end-only')[(vseed >> 11) % 4]
         try:
             a = lang.to_text(f, ivl_printer=Speller(random.Random(vseed), P, unit, mode).ivl)
